@@ -72,7 +72,8 @@ TRUSTED = [
     "Lean 4.33 kernel; axioms subset of {propext, Classical.choice, Quot.sound} (audited on every run)",
     "hand-written model LW.Model.Source / Dist / Fock tied to the code by this correspondence check",
     "float evaluation of x**0.5 and of purity_to_prob (the model takes their exact results; the relation "
-    "purity = 1 - 2x/(1+x)^2, indistinguishability = q^2 is re-checked to 1e-12 on every parameter set)",
+    "purity = 1 - 2x/(1+x)^2, indistinguishability = q^2 is re-checked to 1e-12 on every parameter set; for two-photon "
+    "weights 0 < x < 5e-5 (purity within 1e-4 of 1) to the tolerance of the clause itself, g2 within 1e-9)",
     "thewalrus.perm (permanent); float rounding up to 1e-9",
     "the model is exact, the code rounds: inputs within 1e-12 of probability_threshold are skipped, entries at the "
     "1e-9 backend truncation are compared against the interval [truncated, untruncated]",
@@ -80,7 +81,10 @@ TRUSTED = [
 ASSUMPTIONS = [
     "<= 4 photons incl. heralds (<= 3 when purity < 1, every photon may come with a noise photon), total modes "
     "(with loss) <= 8",
-    "parameters on rational grids incl. the boundaries nu in {0,1}, purity = 1, indistinguishability in {0,1}",
+    "parameters on rational grids incl. the boundaries nu in {0,1}, purity = 1, indistinguishability in {0,1} and their "
+    "neighbourhoods 1 - 1e-k, 1e-k (k = 1..8), two-photon weights on a geometric grid down to 5e-9, purity down to 0.5 + 1e-7; "
+    "exact float purities 1 - 1e-k / 0.5 + 1e-k are judged on the implementation alone (g2f)",
+    "histories: <= 3 circuit objects per history, heralded gates with <= 2 heralded modes, herald photon numbers 0, 1, 2",
 ]
 
 NU = [F(1), F(1), F(1, 2), F(3, 4), F(1, 3), F(9, 10), F(1, 10), F(0)]
